@@ -572,6 +572,14 @@ func writeEvidence(p *Prog, run *checkRun, prop, tier string, records []obRecord
 			assumptions = append(assumptions, "trusted contract (not verified against a body): "+key)
 		}
 	}
+	for _, lp := range p.leanProofs {
+		if hasProp(lp.Props, prop) {
+			assumptions = append(assumptions, "Lean 4 kernel and Mathlib are trusted for the axioms labelled "+lp.Label+" ("+lp.File+" is compiled on every run)")
+		}
+	}
+	for _, br := range boundedReport {
+		assumptions = append(assumptions, fmt.Sprintf("BOUNDED stand-in %v (%v): explores only the stated bound and is not counted among the discharged obligations", br["name"], br["summary"]))
+	}
 	sort.Strings(assumptions)
 	samples := records
 	if len(samples) > 40 {
@@ -625,7 +633,7 @@ func writeEvidence(p *Prog, run *checkRun, prop, tier string, records []obRecord
 			"known_findings_announced":   known,
 			"undecided":                  undecided,
 			"out_of_subset":              run.unsupported,
-			"undecided_clauses":          undecidedClauses[prop],
+			"undecided_clauses":          undecidedFor(prop),
 			"explanation":                "obligations = contract clauses and automatic safety conditions generated from /repo's current source for the functions under contract that were discharged on the pinned tree (baseline/obligations.json); discharged = how many of them the SMT solvers proved unsat on this run",
 		},
 	}
@@ -636,6 +644,29 @@ func writeEvidence(p *Prog, run *checkRun, prop, tier string, records []obRecord
 
 // clauses of each property statement that the contracts do not decide (repeated in evidence)
 var undecidedClauses = map[string][]string{}
+
+// undecidedFor: the clauses of the property that the check does not decide, as recorded next to the claim
+// (tools/claims.json, the source of MANIFEST.json's level_note): everything after "Not decided:".
+func undecidedFor(prop string) []string {
+	data, err := os.ReadFile(filepath.Join(verifDir, "tools", "claims.json"))
+	if err != nil {
+		return undecidedClauses[prop]
+	}
+	var c struct {
+		Claimed map[string]struct {
+			Note string `json:"note"`
+		} `json:"claimed"`
+	}
+	if json.Unmarshal(data, &c) != nil {
+		return undecidedClauses[prop]
+	}
+	note := c.Claimed[prop].Note
+	i := strings.Index(note, "Not decided")
+	if i < 0 {
+		return []string{"(see level_note in MANIFEST.json)"}
+	}
+	return []string{strings.TrimSpace(note[i:])}
+}
 
 var reInstance = regexp.MustCompile(`(#\d+)?(@e\d+)?$`)
 
